@@ -186,7 +186,7 @@ func (h *harness) compile(e, f int, b []byte) (r compileRes) {
 	}()
 	cm, err := rt.CompileModule(h.ctx, b)
 	if err != nil {
-		return compileRes{res: "reject", detail: errClass(err)}
+		return compileRes{res: "reject", detail: errClass(err), msg: err.Error()}
 	}
 	return compileRes{cm: cm, res: "accept"}
 }
